@@ -119,11 +119,16 @@ func (db *RockDB) hSetField(ts int64, checkNX bool, hkey []byte, field []byte, v
 }
 
 func (db *RockDB) HLen(hkey []byte) (int64, error) {
+	return db.hLenAt(time.Now().UnixNano(), hkey, true)
+}
+
+// hLenAt returns the number of fields as of the given time: the local clock for
+// reads, the log timestamp for writes (every replica must see the same size).
+func (db *RockDB) hLenAt(ts int64, hkey []byte, useLock bool) (int64, error) {
 	if err := checkKeySize(hkey); err != nil {
 		return 0, err
 	}
-	tn := time.Now().UnixNano()
-	oldh, expired, err := db.hHeaderMeta(tn, hkey, true)
+	oldh, expired, err := db.hHeaderMeta(ts, hkey, useLock)
 	if err != nil {
 		return 0, err
 	}
@@ -543,7 +548,7 @@ func (db *RockDB) HClear(ts int64, hkey []byte) (int64, error) {
 		defer tableIndexes.Unlock()
 	}
 
-	hlen, err := db.HLen(hkey)
+	hlen, err := db.hLenAt(ts, hkey, false)
 	if err != nil {
 		return 0, err
 	}
